@@ -193,4 +193,115 @@ def confidenceRegion (mu sd : Fin n → α) : (Fin n → α) × (Fin n → α) :
 
 end field
 
+/-! ## 3. Symbolic layer for the regenerated definitions (`Gen/MVN.lean`, translator G7)
+
+The translator emits, from the Python source, (i) the dispatch of `__getitem__` and, per branch, *which
+sub-index of the covariance operator* builds the new covariance, as values of the types below; (ii) scalar
+formulas; (iii) shape / permutation expressions.  The functions here give those values their meaning. -/
+
+/-- Which operand of `kl_mvn_mvn(p_dist, q_dist)` an expression refers to. -/
+inductive Side where
+  | p | q
+  deriving Repr, DecidableEq
+
+/-- Branches of `MultivariateNormal.__getitem__` (multivariate_normal.py:417-434). -/
+inductive Br where
+  | batchOnly | tooMany | int | slice | ellipsis | advanced
+  deriving Repr, DecidableEq
+
+/-- One entry of the tuple the covariance operator is indexed with. -/
+inductive Tok where
+  | whole                 -- the whole `idx` tuple (splat)
+  | rest                  -- `*rest_idx`
+  | last                  -- `last_idx`
+  | lastPlus (k : Int)    -- `last_idx + k` (only meaningful for an int)
+  | full                  -- `slice(None, None, None)`
+  | ell                   -- `...`
+  deriving Repr, DecidableEq
+
+/-- How a branch reads the new covariance out of `self.lazy_covariance_matrix`. -/
+inductive CovSel where
+  | index (pre : List Tok)                 -- `cov[pre]`
+  | indexThen (pre post : List Tok)        -- `cov[pre][post]`
+  | diagOf (pre : List Tok)                -- `DiagLinearOperator(cov.diagonal(dim1=-1, dim2=-2)[pre])`
+  | raise                                  -- the branch raises
+  deriving Repr, DecidableEq
+
+def Idx.isInt : Idx → Bool
+  | .int _ => true
+  | _ => false
+def Idx.isSlice : Idx → Bool
+  | .slice _ _ _ => true
+  | _ => false
+def Idx.isEllipsis : Idx → Bool
+  | .ellipsis => true
+  | _ => false
+
+/-- Specification of the dispatch: batch-only when the index is shorter than the mean's rank and the prefix has
+no ellipsis; too many indices raise; otherwise by the kind of the last entry. -/
+def dispatchSpec (lenIdx meanDim : Nat) (ellInRest : Bool) (last : Idx) : Br :=
+  if lenIdx + 1 ≤ meanDim ∧ ellInRest = false then .batchOnly
+  else if lenIdx > meanDim then .tooMany
+  else match last with
+    | .int _ => .int
+    | .slice _ _ _ => .slice
+    | .ellipsis => .ellipsis
+    | .list _ => .advanced
+
+/-- Event positions denoted by a token, for an event dimension of size `n` and the given `last_idx`. -/
+def tokSel (n : Nat) (last : Idx) : Tok → Option Sel
+  | .last => normDim n last
+  | .lastPlus k => match last with
+    | .int i => normDim n (.int (i + k))
+    | _ => none
+  | .full => some (.keep (List.range n))
+  | _ => none
+
+/-- `(rows, columns)` of `Σ` read by a covariance selection (event level; `rest_idx` only touches batch
+dimensions).  `none`: the selection does not denote a sub-matrix of `Σ` (or raises). -/
+def covSelPositions (n : Nat) (last : Idx) : CovSel → Option (Sel × Sel)
+  | .index [.rest] => some (.keep (List.range n), .keep (List.range n))
+  | .index [.rest, r, c] => do
+      let rs ← tokSel n last r
+      let cs ← tokSel n last c
+      some (rs, cs)
+  | .indexThen [.rest, r, c] [.ell, p] => do
+      let rs ← tokSel n last r
+      let cs ← tokSel n last c
+      match cs with
+      | .keep cl => do
+          let ps ← tokSel cl.length last p
+          match ps with
+          | .keep js => some (rs, .keep (js.map fun j => cl.getD j 0))
+          | .drop _ => none
+      | .drop _ => none
+  | .diagOf [.rest, t] => do
+      let ps ← tokSel n last t
+      match ps with
+      | .drop q => some (.drop q, .drop q)
+      | .keep _ => none
+  | _ => none
+
+/-- Positions as a list (a dropped dimension is the single position). -/
+def Sel.positions : Sel → List Nat
+  | .drop q => [q]
+  | .keep ps => ps
+
+/-- Sub-matrix `S[rows, cols]`. -/
+def subMat? {α : Type} {n : Nat} (S : DMat n n α) (rows cols : List Nat) : Option (DMat rows.length cols.length α) :=
+  if h : (∀ q ∈ rows, q < n) ∧ ∀ q ∈ cols, q < n then some (S.submatrix (selFn rows h.1) (selFn cols h.2)) else none
+
+/-- `variance.clamp_min(min_variance)`, elementwise. -/
+def varianceClamped {α : Type} [Max α] {n : Nat} (floor : α) (v : Fin n → α) : Fin n → α := fun i => max (v i) floor
+
+/-- Source axis of output axis `j` under `t.permute(perm)`. -/
+def permSource (perm : List Nat) (j : Nat) : Nat := perm.getD j 0
+
+/-- `sample_shape + batch_shape + base_sample_shape`. -/
+def extendedShape (ss bs ks : List Nat) : List Nat := ss ++ bs ++ ks
+
+/-- `unsqueeze(dim)` on a batch shape of rank `nb`: accepted range and the non-negative equivalent. -/
+def unsqueezeDimSpec (nb : Nat) (dim : Int) : Option Int :=
+  if dim > nb ∨ dim < -(nb : Int) - 1 then none else some (if dim < 0 then nb + dim + 1 else dim)
+
 end MVN
